@@ -1278,7 +1278,12 @@ class InterpCore:
                 for kk, vv in d.d.items():
                     if not isinstance(kk, str):
                         self.throw("TypeError", "keywords must be strings", e)
-                    kwargs[kk] = vv
+                    over = (d.may or {}).get(kk)
+                    if over:
+                        # seeded before a loop and possibly overwritten by it: what the loop stored, or the seeded value
+                        kwargs[kk] = Sym(("maybe", tuple(term_of(x) for x in over), term_of(vv)), "any", alts=list(over) + [vv])
+                    else:
+                        kwargs[kk] = vv
                 for kk, vs in (d.may or {}).items():
                     if kk not in d.d and isinstance(kk, str):
                         # keyword present only when an earlier loop stored it
